@@ -6,11 +6,14 @@
 //! transcript of (case index, result digest) pairs. The orchestrator compares
 //! transcripts entry by entry across configurations.
 
+#[allow(unused_imports)]
+use crate::prelude::*;
 use crate::case::{Api, Be, Fam};
 use crate::mem::Place;
 use crate::p_bytes::build_hay;
 use crate::p_sub::{exhaustive_pairs, level, random_pairs, structured_pairs};
 use crate::runner::{Runner, Tier};
+#[cfg(not(target_arch = "wasm32"))]
 use std::io::Write;
 
 pub struct Tx {
@@ -123,6 +126,21 @@ pub fn transcript(r: &mut Runner, stride: u64, dump: u64, path: Option<&str>) {
     r.rep.count("transcript_entries", (tx.out.len() / 2) as u64);
     println!("{{\"t\":\"extra\",\"key\":\"transcript\",\"value\":{{\"shard\":{},\"config\":\"{}\",\"force\":{},\"entries\":{},\"hash\":\"{:016x}\"}}}}",
         r.shard, r.rep.config, r.force, tx.out.len() / 2, h);
+    #[cfg(target_arch = "wasm32")]
+    {
+        // no file system: the transcript itself goes to the host as lines
+        let _ = path;
+        let mut line = String::new();
+        for (k, pair) in tx.out.chunks(2).enumerate() {
+            line.push_str(&format!("{}:{},", pair[0], pair[1]));
+            if k % 256 == 255 {
+                println!("{{\"t\":\"tx\",\"pairs\":\"{}\"}}", line);
+                line.clear();
+            }
+        }
+        println!("{{\"t\":\"tx\",\"pairs\":\"{}\"}}", line);
+    }
+    #[cfg(not(target_arch = "wasm32"))]
     if let Some(p) = path {
         if let Ok(mut f) = std::fs::File::create(p) {
             let bytes = unsafe { core::slice::from_raw_parts(tx.out.as_ptr() as *const u8, tx.out.len() * 8) };
